@@ -5,6 +5,7 @@ except NameError:
     def assume(cond):
         return None
 import copy
+from glom.matching import TypeMatchError
 from glom.core import (glom, T, S, A, Spec, TType, Path, Inspect, MODE, MIN_MODE, CHILD_ERRORS, CUR_ERROR, LAST_CHILD_SCOPE, NO_PYFRAME, UP, ROOT,
                        AUTO, FILL, GlomError, ScopeVars, TargetRegistry, _t_eval, _has_callable_glomit, _glom, _DEFAULT_SCOPE, _MISSING, GLOM_DEBUG,
                        _ArgValuator, chain_child, arg_val, SKIP, STOP)
@@ -130,3 +131,73 @@ def pipe_via_ref(self, target, scope):
             if not isinstance(step, list):
                 scope[Path] += [getattr(step, '__name__', step)]
     return cur
+
+
+def glom_top_ref(target, spec, **kwargs):
+    """glom(): a fresh scope per call (child of the default scope; the caller's mapping is only copied in); the result of the evaluation
+    is returned as it is.  An error matching skip_exc (GlomError when only default is given; nothing when neither is given) is
+    replaced by the default OBJECT ITSELF.  Any other Exception: with glom_debug the original object propagates; a GlomError leaves
+    as a copy of itself (same class, same args) -- or as itself when it cannot be copied; anything else leaves as GlomError.wrap of it
+    (a class below both its class and GlomError, same args) -- or as itself when that class cannot be built from its args.
+    Exceptions that are not Exceptions (BaseException) propagate untouched."""
+    default = kwargs.pop('default', None if 'skip_exc' in kwargs else _MISSING)
+    skip_exc = kwargs.pop('skip_exc', () if default is _MISSING else GlomError)
+    glom_debug = kwargs.pop('glom_debug', GLOM_DEBUG)
+    scope = _DEFAULT_SCOPE.new_child({
+        Path: kwargs.pop('path', []),
+        Inspect: kwargs.pop('inspector', None),
+        MODE: AUTO,
+        MIN_MODE: None,
+        CHILD_ERRORS: [],
+        'globals': ScopeVars({}, {}),
+    })
+    scope[UP] = scope
+    scope[ROOT] = scope
+    scope[T] = target
+    scope.update(kwargs.pop('scope', {}))
+    if kwargs:
+        raise TypeError('unexpected keyword args: %r' % sorted(kwargs.keys()))
+    try:
+        try:
+            return _glom(target, spec, scope)
+        except skip_exc:
+            if default is _MISSING:
+                raise
+            return default
+    except Exception as e:
+        if glom_debug:
+            raise
+        if isinstance(e, GlomError):
+            try:
+                err = copy.copy(e)
+            except Exception:
+                err = e
+            err._set_wrapped(e)
+        else:
+            err = GlomError.wrap(e)
+        if not isinstance(err, GlomError):
+            raise
+        err._finalize(scope[LAST_CHILD_SCOPE])
+        raise err
+
+
+def wrap_ref(cls, exc):
+    """GlomError.wrap: an instance of a dynamically created class deriving from the exception's class and GlomError (GlomError only
+    once), built from the original args, remembering the original; the original itself if that class cannot be instantiated"""
+    exc_type = type(exc)
+    if issubclass(GlomError, exc_type):
+        bases = (GlomError,)
+    else:
+        bases = (exc_type, GlomError)
+    wrapper_type = type(f"GlomError.wrap({exc_type.__name__})", bases, {})
+    try:
+        wrapper = wrapper_type(*exc.args)
+        wrapper._GlomError__wrapped = exc
+        return wrapper
+    except Exception:
+        return exc
+
+
+def tme_copy_ref(self):
+    """TypeMatchError.__copy__: rebuilt from (actual, expected), which are args[2] and args[1]"""
+    return TypeMatchError(self.args[2], self.args[1])
